@@ -150,6 +150,10 @@ def main(argv):
             harness_problem = ('run stalled (no progress for the stall '
                                'limit) also when retried alone: %r' % (
                                    info['confirmed_timeouts'][:4],))
+    if agg.probes.get('harness_out_of_step') and not agg.violations:
+        harness_problem = ('a receiver went out of step with the sent '
+                           'stream in %d runs although no oracle fired' %
+                           agg.probes['harness_out_of_step'])
     confirmed = {(x[0], x[1]) for x in info['confirmed_timeouts'] +
                  info['confirmed_crashes']}
     info['transient_worker_failures'] = [
